@@ -1,4 +1,4 @@
-"""C16 - PooledClient, HashClient (single-key operations) and RetryingClient behave like Client.
+"""C16 - PooledClient, HashClient and RetryingClient behave like Client.
 
 Forwarding contracts proved by symbolic execution with Python's call-binding rules against the *current*
 signature of Client.<m> (read from the AST): for every key-addressed method m and every argument pack Client.m
@@ -13,15 +13,24 @@ default_noreply, allow_unicode_keys, encoding, tls_context) and builds inner cli
 HashClient.<m> (every single-key method, plain and (server_key, key) keys, with _run_cmd / _get_client inlined and
 _safely_run_func by its C13 contract): same obligations - accepts every pack, one inner call on the routed client
 with the caller's bound arguments, result / exception passed through.
+HashClient.__init__ / add_server (contracts/hashmany.py, verify_hash_ctor): every constructor parameter HashClient shares with the
+per-server client class - the set is read from the two signatures in the current source, ignore_exc excepted - is stored under its
+own name with the caller's value, nothing else is passed, the routing-level options stay on the HashClient; add_server builds
+exactly one client of the right class (PooledClient when pooling, else client_class) for the server with exactly the stored
+options, registers it under the node name and puts the node in rotation. HashClient set_many / get_many / gets_many: one inner
+call per batch with exactly that batch and the caller's arguments (the C12 group-by invariants, re-established here).
+A differential bounded replay (four stacks x 8 configurations x 28 operations x 13 server scripts against a plain Client: same
+bytes sent, same result or exception class) decides undecided VCs and stands in for functions that leave the verifier's reach.
 "Same commands, same result in every server state" then follows from the same inner call + determinism of Client.m
 given the reply (server states enter only through the symbolic reply).
 """
 from . import poolmodel as pm
 from . import hashmodel as hm
+from . import hashmany as hmany
 
 TRUSTED = ["call binding (pyvc.sym.bind_args)", "contextlib.contextmanager single-yield semantics", "pool contracts proved in C09"]
 ASSUMPTIONS = ["client_class is Client (no subclass overrides)"]
-NOT_COVERED = ["HashClient multi-key methods (set_many/get_many/gets_many/delete_many) and HashClient's constructor options (default_kwargs)", "RetryingClient: __getattr__ forwarding is proved in C17 (re-run here as dep:C17)",
+NOT_COVERED = ["HashClient.delete_many (a thin loop over the single-key delete, which is covered)", "Client.__init__ itself (that each stored option takes effect is what C01..C06 prove per option)", "RetryingClient: __getattr__ forwarding is proved in C17 (re-run here as dep:C17)",
                "non-key-addressed methods (stats, flush_all, quit, close, version, raw_command differ by design)"]
 BUDGET = {"quick": 30, "thorough": 120}
 FILTER_BY_PROPERTY = True
@@ -32,3 +41,82 @@ def build(E, tier):
     pm.verify_pooled_client(E, methods=pm.KEYED)
     pm.verify_create_client(E)
     hm.verify_hash_single(E)
+    hmany.verify_hash_ctor(E, "C16")
+    hmany.verify_hash_many(E, prop="C16")
+
+
+REPLAY = r'''
+from fakesock import FakeModule
+from pymemcache.client.base import Client, PooledClient
+from pymemcache.client.hash import HashClient
+from pymemcache.client.retrying import RetryingClient
+from pymemcache import serde as serde_mod
+CONFIGS = [dict(), dict(key_prefix=b"pfx:"), dict(default_noreply=False), dict(encoding="utf-8"), dict(allow_unicode_keys=True),
+           dict(serde=serde_mod.pickle_serde), dict(key_prefix=b"p", default_noreply=False, encoding="utf-8", allow_unicode_keys=True),
+           dict(no_delay=True, connect_timeout=3, timeout=4)]
+OPS = {
+    "set": lambda c: c.set("k", "v\u00e9" if False else "val", expire=7), "set-noreply-false": lambda c: c.set("k", b"v", noreply=False),
+    "set-flags": lambda c: c.set("k", b"v", flags=5, noreply=False), "set-unicode-value": lambda c: c.set("k", "h\u00e9llo", noreply=False),
+    "set-unicode-key": lambda c: c.set("cl\u00e9", b"v", noreply=False),
+    "add": lambda c: c.add("k", b"v", noreply=False), "replace": lambda c: c.replace("k", b"v"), "append": lambda c: c.append("k", b"v", noreply=False),
+    "prepend": lambda c: c.prepend("k", b"v"), "cas": lambda c: c.cas("k", b"v", b"12"), "cas-noreply": lambda c: c.cas("k", b"v", "12", noreply=True),
+    "get": lambda c: c.get("k"), "get-default": lambda c: c.get("k", "d"), "gets": lambda c: c.gets("k"), "gat": lambda c: c.gat("k", 5),
+    "gats": lambda c: c.gats("k", 5), "delete": lambda c: c.delete("k"), "delete-wait": lambda c: c.delete("k", noreply=False),
+    "incr": lambda c: c.incr("k", 2), "incr-noreply": lambda c: c.incr("k", 2, noreply=True), "decr": lambda c: c.decr("k", 2),
+    "touch": lambda c: c.touch("k", 9), "touch-wait": lambda c: c.touch("k", 9, noreply=False),
+    "get_many": lambda c: c.get_many(["k", "k2"]), "gets_many": lambda c: c.gets_many(["k"]), "set_many": lambda c: c.set_many({"k": b"1", "k2": b"2"}, noreply=False),
+    "delete_many": lambda c: c.delete_many(["k", "k2"], noreply=False), "bad-key": lambda c: c.get("a b"),
+}
+L = lambda *lines: [x + b"\r\n" for x in lines]          # one reply line per recv(): nothing is left over between exchanges
+SERVER = {"hit": L(b"VALUE k 0 1", b"v", b"END"), "hit-cas": L(b"VALUE k 0 1 9", b"v", b"END"), "miss": L(b"END", b"END"), "stored": L(b"STORED", b"STORED"),
+          "not-stored": L(b"NOT_STORED", b"NOT_STORED"), "exists": L(b"EXISTS"), "not-found": L(b"NOT_FOUND", b"NOT_FOUND"), "deleted": L(b"DELETED", b"DELETED"),
+          "number": L(b"12"), "non-numeric": L(b"CLIENT_ERROR cannot increment or decrement non-numeric value"), "touched": L(b"TOUCHED"),
+          "server-error": L(b"SERVER_ERROR out of memory"), "eof": []}
+def stacks(mod, cfg):
+    yield "PooledClient", PooledClient(("h", 1), socket_module=mod(), **cfg)
+    yield "HashClient", HashClient([("h", 1)], socket_module=mod(), **cfg)
+    yield "HashClient-pooled", HashClient([("h", 1)], use_pooling=True, socket_module=mod(), **cfg)
+    yield "RetryingClient", RetryingClient(Client(("h", 1), socket_module=mod(), **cfg), attempts=1)
+def run(c, op):
+    try:
+        return ("ok", op(c))
+    except Exception as e:
+        return ("raise", type(e).__name__)
+bad = None; n = 0
+for cfg in CONFIGS:
+    for oname, op in OPS.items():
+        for sname, script in SERVER.items():
+            mods = []
+            def mod():
+                m = FakeModule(per_socket=[list(script)] * 3); mods.append(m); return m
+            ref = Client(("h", 1), socket_module=mod(), **cfg)
+            want = run(ref, op); want_sent = mods[0].sent
+            for label, c in stacks(mod, cfg):
+                n += 1
+                got = run(c, op); sent = mods[-1].sent
+                per_key = label.startswith("HashClient") and oname == "delete_many" and want[0] == "raise"    # HashClient deletes key by key (by design)
+                if got != want or (sent != want_sent and not per_key):
+                    bad = dict(stack=label, config={k: repr(v) for k, v in cfg.items()}, op=oname, server=sname, plain_client=repr(want)[:120], stack_result=repr(got)[:120],
+                               plain_client_sent=repr(want_sent)[:120], stack_sent=repr(sent)[:120]); break
+            if bad: break
+        if bad: break
+    if bad: break
+out(cases=n, failing=bad)
+'''
+_rc = {}
+REPLAY_UNDECIDED = True
+
+
+def replay(ob, res):
+    """Differential bounded replay: PooledClient, HashClient with one server (pooled or not) and RetryingClient(Client) against a plain
+    Client with the same options over the same scripted fake server: same bytes sent, same result or same exception class."""
+    from pyvc import replay as rp
+    if "r" not in _rc:
+        _rc["r"] = rp.run_real(REPLAY, {}, timeout=900)
+    obs = _rc["r"]
+    from pyvc.replay import failing_of
+    if failing_of(obs):
+        obs = dict(obs, failing=failing_of(obs))
+        return {"reproduced": True, "call": "same operation on a wrapped stack and on a plain Client (same options, same scripted server)",
+                "input": obs["failing"], "cases_tried": obs.get("cases")}
+    return {"reproduced": False, "searched": obs}
